@@ -1408,7 +1408,7 @@ class Interp:
         elements satisfying the predicate, in order. Assumes pred is pure."""
         g = e.generators[0]
         if not (isinstance(e.elt, ast.Name) and isinstance(g.target, ast.Name) and e.elt.id == g.target.id):
-            raise Unsupported("filter comprehension whose element is not the loop variable")
+            return self._sym_filter_sum(st, e, fr, seq)
         n = Q.seq_len(seq)
         base = Q.to_sseq(seq)
 
@@ -1433,6 +1433,48 @@ class Interp:
         st.assume(V.forall(0, n, lambda i: V.implies(pred(base.get(i)), both(zp(i) >= 0, zp(i) < m, zi(zp(i)) == i))))
         r = SSeq(m, lambda j: base.get(zi(j)), base.shape, None, "filter")
         r.filter_of = (base, zi, zp, pred)
+        return r
+
+    def _sym_filter_sum(self, st, e, fr, seq):
+        """`(elt(x) for x in seq if cond(x))` over a sequence of symbolic length, usable only as the argument
+        of sum(): the sum is G(len(seq)) for a fresh prefix-sum function G defined by
+            G(0) = 0,   G(k+1) = G(k) + (elt(seq[k]) if cond(seq[k]) else 0)
+        (CPython: sum() of the filtered generator, integers).  The defining equations are instantiated by
+        `unfold(k)`; the record (G, n, term) is appended to st.ghost["gen_sums"] so that a contract can relate G
+        to a spec function (pointwise-equal summands, lemma `pointwise-equal-prefix-sums`).  Assumes elt and cond
+        are pure and cannot raise.  Reading an element of the generator is Unsupported."""
+        g = e.generators[0]
+        n = Q.seq_len(seq)
+        base = Q.to_sseq(seq)
+        G = z3.Function(st.fresh_name("gensum"), z3.IntSort(), z3.IntSort())
+
+        def term(k):
+            cfr = Frame(fr.fn, fr.mod, parent=fr)
+            cfr.self_obj = fr.self_obj
+            self.assign_target(V.cur(), g.target, base.get(k), cfr)
+            c = True
+            for cnd in g.ifs:
+                v = self.eval(V.cur(), cnd, cfr)
+                c = both(c, v if isinstance(v, (bool, SBool)) else self.truth(V.cur(), v))
+            v = self.eval(V.cur(), e.elt, cfr)
+            if not V.is_num(v) or isinstance(v, SBool):
+                raise Unsupported("sum of a filtered generator over non-integer elements")
+            return V.ite(c, v, 0)
+
+        def unfold(k):
+            s_ = V.cur()
+            zk = V._z(k)
+            s_.assume(G(z3.IntVal(0)) == 0)
+            s_.assume(z3.Implies(z3.And(zk >= 0, zk < V._z(n)), G(zk + 1) == G(zk) + V._z(term(k))))
+
+        def getter(i):
+            raise Unsupported("element of a filtered generator over a sequence of symbolic length (only sum() is modelled)")
+
+        r = SSeq(st.fresh_int("flen"), getter, None, lambda k: mk_int(G(V._z(n))), "filtersum")
+        r.sum = lambda: mk_int(G(V._z(n)))
+        st.assume(G(z3.IntVal(0)) == 0)
+        rec = View({"G": lambda k: mk_int(G(V._z(k))), "n": n, "term": term, "unfold": unfold, "node": e})
+        st.ghost.setdefault("gen_sums", []).append(rec)
         return r
 
     def e_ListComp(self, st, e, fr):
